@@ -134,7 +134,7 @@ def _mutate(obj, rng, k: int) -> None:
 
         st = {kk: v for kk, v in tl.xml_project(obj.serialize()).items() if kk in ("rows", "cols")}
         o = rand_op(rng, st)
-        if o["op"] in ("csv", "rstrip", "optimize_width", "transpose", "delete_row", "delete_cell", "delete_column"):
+        if o["op"] in ("csv", "rstrip", "optimize_width", "transpose", "transpose_area", "delete_row", "delete_cell", "delete_column"):
             o = {"op": "append_row", "r": [k % 7 + 1], "n": 1}
         tl.apply_op(obj, o, rng, "rand")
         obj.set_attribute("table:style-name", f"m{k}")
